@@ -322,9 +322,9 @@ PROP = Prop(
           "replacement / by_group / single_pass samplers for well-formedness. Non-trivial = >=2 "
           "groups whose metric values differ."),
     clauses=[
-        Clause("values", check_values, strategy=_value_cases(), quick=300, thorough=1500, quick_shards=4,
+        Clause("values", check_values, strategy=_value_cases(), quick=300, thorough=9000, quick_shards=4,
                min_nontrivial=100, doc="labels, entries, normalisation"),
-        Clause("bootstrap", check_bootstrap, strategy=_boot_cases(), quick=200, thorough=1000,
+        Clause("bootstrap", check_bootstrap, strategy=_boot_cases(), quick=200, thorough=6000,
                quick_shards=4, min_nontrivial=100, doc="intervals are for the reported quantity"),
     ],
     predicates={"by_min_bootstrap": _by_min_bootstrap},
